@@ -147,38 +147,123 @@ def nonzero_value(v):
     return not p.is_zero()
 
 
+def _nonneg(q):
+    """q >= 0 for all non-negative integer values of the count symbols (sufficient: no negative coefficient)"""
+    q = lift(q)
+    return all(v >= 0 for v in q.t.values()) and all(a[0] in ('K', 'S') for k in q.t for a, _ in k)
+
+
+def _arange_atom(q):
+    for a in lift(q).atoms():
+        if a[0] == 'S' and isinstance(a[1], Sym) and a[1].op == 'arange':
+            return a
+    return None
+
+
+def active_prefix(term, p_old, c_old, what):
+    """the set of entries of the probability mask `term` that are non-zero, when it is a prefix [0, c): returns c.
+    Interprets the ways a mask is written (slice assignment, dynamic_update_slice, a loop of contiguous block writes, an
+    elementwise selection on the entry index) instead of recognising one spelling; p_old is active on [0, c_old)."""
+    t = as_sym(term)
+    if isinstance(t, Sym) and same(t, as_sym(p_old)):
+        return lift(c_old)
+    if is_sym(t, 'at_set', 3):
+        base, idx, v = t.args
+        c = active_prefix(base, p_old, c_old, what)
+        if not (isinstance(idx, tuple) and idx and idx[0] == 'slice' and idx[3] is None):
+            raise Inconclusive(f"{what}: mask assignment at {idx}")
+        lo = Poly.const(0) if idx[1] is None else lift(idx[1])
+        if idx[2] is None:
+            raise Inconclusive(f"{what}: mask assignment up to the end of the store")
+        hi = lift(idx[2])
+        if not nonzero_value(v):
+            raise Inconclusive(f"{what}: entries [{lo}, {hi}) are reset to {v}")
+        if _nonneg(c - lo):                       # touches or overlaps the active prefix
+            if _nonneg(c - hi):
+                return c
+            if _nonneg(hi - c):
+                return hi
+        raise Inconclusive(f"{what}: cannot order {c} and [{lo}, {hi})")
+    if is_sym(t, 'dynamic_update_slice', 3):
+        base, val, off = t.args
+        c = active_prefix(base, p_old, c_old, what)
+        if not (isinstance(off, tuple) and len(off) == 1 and isinstance(val, tuple) and val[0] == 'AT' and len(val[1]) == 1):
+            raise Inconclusive(f"{what}: block write {str(t)[:120]}")
+        lo, L = lift(off[0]), _axis_len(val[1][0])
+        if not nonzero_value(val):
+            raise Inconclusive(f"{what}: a block of zeros is written")
+        if _nonneg(c - lo) and _nonneg(lo + L - c):
+            return lo + L
+        if _nonneg(c - lo - L):
+            return c
+        raise Inconclusive(f"{what}: block [{lo}, {lo + L}) is not adjacent to the active prefix [0, {c})")
+    if is_sym(t, 'fori_loop', 4):
+        lo, hi, body, init = t.args
+        c = active_prefix(init, p_old, c_old, what)
+        body = as_sym(body)
+        if not is_sym(body, 'dynamic_update_slice', 3) or as_sym(body.args[0]) != Sym('$carry'):
+            raise Inconclusive(f"{what}: activation body outside the rule's vocabulary: {str(body)[:200]}")
+        val, off = body.args[1], body.args[2]
+        if not (isinstance(off, tuple) and len(off) == 1 and isinstance(val, tuple) and val[0] == 'AT' and len(val[1]) == 1):
+            raise Inconclusive(f"{what}: block write {str(body)[:120]}")
+        if not nonzero_value(val):
+            raise Violation(f"{what}: activation value", str(val)[:120], "a non-zero probability")
+        L = _axis_len(val[1][0])
+        i_ = Poly.atom(('S', Sym('$i')))
+        o = lift(off[0])
+        c0 = Poly({k: v for k, v in o.t.items() if not any(a == ('S', Sym('$i')) for a, _ in k)})
+        c1 = (o - c0)
+        if c1 != L * i_:
+            raise Violation(f"{what}: activation offset", f"block i of {L} entries is written at {o}", f"consecutive blocks (stride {L})")
+        first, last = c0 + L * lift(lo), c0 + L * lift(hi)
+        if not _nonneg(lift(hi) - lift(lo)):
+            raise Inconclusive(f"{what}: loop range {lo} .. {hi}")
+        if _nonneg(c - first) and _nonneg(last - c):
+            return last
+        if _nonneg(c - last):
+            return c
+        if _nonneg(first - c) and first != c:
+            raise Violation(f"{what}: activation range", f"blocks {lift(lo)} .. {lift(hi)} - 1 are written at [{first}, {last}) while the active "
+                            f"entries end at {c}", "the blocks follow the active entries without a gap")
+        raise Inconclusive(f"{what}: cannot order {c} and [{first}, {last})")
+    if is_sym(t, 'cond', 3) and isinstance(t.args[0], Pred) and t.args[0].kind == 'ge0':
+        # elementwise selection on the entry index: where(q(arange) >= 0, a, b)
+        q = lift(t.args[0].arg)
+        ar = _arange_atom(q)
+        a, b = t.args[1], t.args[2]
+        if ar is not None:
+            coef = q.diff_atom(ar) if hasattr(q, 'diff_atom') else None
+            rest = Poly({k: v for k, v in q.t.items() if not any(x == ar for x, _ in k)})
+            lin = q - rest
+            if lin == Poly.atom(ar):            # i + rest >= 0  <=>  i >= -rest
+                thr, ge_val, lt_val = -rest, a, b
+            elif lin == -Poly.atom(ar):         # -i + rest >= 0  <=>  i <= rest  <=>  i < rest + 1
+                thr, ge_val, lt_val = rest + 1, b, a
+            else:
+                raise Inconclusive(f"{what}: selection on {q}")
+            za, zb = (not nonzero_value(ge_val)), (not nonzero_value(lt_val))
+            if za and not zb:
+                return thr
+            raise Inconclusive(f"{what}: selection values {lt_val} / {ge_val}")
+    raise Inconclusive(f"{what}: activation idiom outside the rule's vocabulary: {str(t)[:200]}")
+
+
+def _axis_len(name):
+    from ..alg import axis_extent
+    try:
+        return Poly.const(int(name))
+    except (TypeError, ValueError):
+        return axis_extent(name)
+
+
 def check_mask_activation(p_new, p_old, start, sel, J, what):
-    """the probability mask after a step: fori_loop(0, J + 1, i -> write `sel` non-zero entries at start + i * sel,
-    init = p_old with its first `start` entries set to a non-zero value); i.e. exactly the first start + (J + 1) * sel
-    entries are active, which includes the slice written by this step"""
-    p_new = as_sym(p_new)
-    if not is_sym(p_new, 'fori_loop', 4):
-        raise Inconclusive(f"{what}: activation idiom outside the rule's vocabulary: {str(p_new)[:200]}")
-    lo, hi, body, init = p_new.args
-    if lift(lo) != 0:
-        raise Violation(f"{what}: activation range", f"slices {lo} .. {hi} - 1 are activated", f"slices 0 .. {lift(J)} (all steps so far)")
-    if lift(hi) != lift(J) + 1:
-        raise Violation(f"{what}: activation range", f"slices 0 .. ({hi}) - 1 are activated after step number {lift(J)} "
-                        f"(the slice written by this step is number {lift(J)})", f"slices 0 .. {lift(J)}: upper bound {lift(J) + 1}")
-    body = as_sym(body)
-    if not is_sym(body, 'dynamic_update_slice', 3) or as_sym(body.args[0]) != Sym('$carry'):
-        raise Inconclusive(f"{what}: activation body outside the rule's vocabulary: {str(body)[:200]}")
-    val, off = body.args[1], body.args[2]
-    exp_off = lift(start) + lift(sel) * Poly.atom(('S', Sym('$i')))
-    if not (isinstance(off, tuple) and len(off) == 1 and lift(off[0]) == exp_off):
-        raise Violation(f"{what}: activation offset", f"slice i is written at {off}", f"({exp_off},)")
-    if not (isinstance(val, tuple) and val[0] == 'AT' and val[1] == (str(lift(sel)),)):
-        raise Violation(f"{what}: activation length", f"{str(val)[:120]}", f"{lift(sel)} entries per slice")
-    if not nonzero_value(val):
-        raise Violation(f"{what}: activation value", str(val)[:120], "a non-zero probability")
-    init = as_sym(init)
-    if not is_sym(init, 'at_set', 3):
-        raise Inconclusive(f"{what}: initial mask idiom outside the rule's vocabulary: {str(init)[:200]}")
-    base, idx, v0 = init.args
-    if not same(as_sym(base), as_sym(p_old)):
-        raise Violation(f"{what}: mask base", str(base)[:120], str(p_old)[:120])
-    if idx != ('slice', None, fz(lift(start)), None):
-        raise Violation(f"{what}: initial points", f"entries {idx} are (re)set", f"the first {lift(start)} entries")
-    if not nonzero_value(v0):
-        raise Violation(f"{what}: initial probability", str(v0), "non-zero")
+    """the probability mask after refinement step number J (steps 0 .. J - 1 done before: the first start + J * sel entries of
+    p_old are active): exactly the first start + (J + 1) * sel entries are active afterwards, which includes the block written
+    by this step"""
+    c_old = lift(start) + lift(J) * lift(sel)
+    c = active_prefix(p_new, p_old, c_old, what)
+    want = lift(start) + (lift(J) + 1) * lift(sel)
+    if c != want:
+        raise Violation(f"{what}: active entries", f"the first {c} entries are active after step number {lift(J)}",
+                        f"the first {want} (the block written by this step included)")
     return f"{what}: first {lift(start)} + ({lift(J)} + 1) * {lift(sel)} entries active"
